@@ -62,7 +62,7 @@ func c19() []*Ob {
 					}
 				}
 			}},
-		{Prop: "C19", ID: "C19.2", Engine: "CODEC+FIELDS", Floor: 5,
+		{Prop: "C19", ID: "C19.2", Engine: "CODEC+FIELDS", Floor: 3,
 			Desc: "bin key codec: AggBin.toKey and fromKey use the same separator constant, Itoa <-> Atoi, and fromKey splits at the first separator only; AggregatableSamples' JSON shadow struct is filled with SamplesByBin and NotExists in both directions",
 			Check: func(c *Ctx) {
 				to, from := c.Fn("(*seq.AggBin).toKey"), c.Fn("(*seq.AggBin).fromKey")
@@ -212,7 +212,7 @@ func c19() []*Ob {
 					}
 				}
 			}},
-		{Prop: "C19", ID: "C19.4", Engine: "DOM+SIBLING", Floor: 3,
+		{Prop: "C19", ID: "C19.4", Engine: "DOM+SIBLING", Floor: 2,
 			Desc: "resume: MustStartAsync starts processRequest for every loaded request that is not Done; StartSearch and the resume path of doSearch parse the stored query with the same parser and with the mapping of the same provider",
 			Check: func(c *Ctx) {
 				if fn := c.Fn("fracmanager.MustStartAsync"); fn != nil {
@@ -272,7 +272,7 @@ func c19() []*Ob {
 					}
 				}
 			}},
-		{Prop: "C19", ID: "C19.5", Engine: "PROV+SIBLING", Floor: 2,
+		{Prop: "C19", ID: "C19.5", Engine: "PROV+SIBLING", Floor: 1,
 			Desc: "same merge as the synchronous path: every seq.MergeQPRs call in fracmanager and frac/processor passes a histogram interval and an order derived from the request's SearchParams (no constants)",
 			Check: func(c *Ctx) {
 				m := Callee("seq.MergeQPRs")
